@@ -31,7 +31,7 @@ func init() {
 			"quota granularity is whole megabytes, as in the implementation (total/1048576 > megabytes)",
 		},
 		Units: func(tier string) []runner.Unit {
-			return append(append(counterUnits(tier), reloadUnits(tier)...), quotaUnits(tier)...)
+			return append(append(append(counterUnits(tier), reloadUnits(tier)...), quotaUnits(tier)...), partialWriteUnits(tier)...)
 		},
 		QuickBudget:    240,
 		ThoroughBudget: 600,
